@@ -6,33 +6,23 @@ import json, subprocess, os, sys
 
 ROOT = os.path.dirname(os.path.dirname(os.path.abspath(__file__)))
 
-# id -> (level text, level note, technique, design ref)
-CLAIMS = {
-    "C08": (
-        "Structural necessary conditions of determinism decided exhaustively over the code: every range over a Go map (both build "
-        "configurations) has an order-insensitive body by a closed classifier with callees checked against order sinks over the CHA "
-        "call graph; clock/random/address sources are confined to the seedable RandSource which --rand-seed replaces before the "
-        "evaluator is created; no goroutines. These are the only nondeterminism sources of this single-goroutine code, so the clause "
-        "covers every input; the values computed are not decided.",
-        "Trusts go/types, go/ssa, CHA call graph (x/tools v0.29.0); map stores inside map-range loops assumed to hit distinct keys; "
-        "three set-like consumers and the JSON.parse consumer of the wasm font call are exempt by review (printed on every run).",
-        "custom dataflow/effect lint over type-checked AST + SSA call graph (order-sink reachability), who-may-call",
-        "DESIGN.md §3 R-MAPRANGE, §4 C08",
-    ),
-}
-
 NOT_APPLICABLE_REASON = {
 }
 
 def main():
-    out = subprocess.run([os.path.join(ROOT, "bin/evycheck"), "-list"], capture_output=True, text=True, check=True).stdout
-    registered = [l.split(":")[0] for l in out.splitlines() if l.strip()]
+    out = subprocess.run([os.path.join(ROOT, "bin/evycheck"), "-list-json"], capture_output=True, text=True, check=True).stdout
+    props = {p["id"]: p for p in json.loads(out)}
+    registered = list(props)
     checks = []
     na = []
     for i in range(1, 21):
         pid = f"C{i:02d}"
-        if pid in registered and pid in CLAIMS:
-            text, note, technique, ref = CLAIMS[pid]
+        if pid in registered:
+            pr = props[pid]
+            text = pr["text"] + " Does not decide: " + pr["not_decided"]
+            note = pr["note"] or ("Trusts go/packages, go/types, go/ssa and the CHA call graph of x/tools v0.29.0 and the Go toolchain's build configuration. Assumptions: " + "; ".join(pr["assumptions"] or ["none beyond the trusted base"]) + ". Reviewed exemptions are single named constructs printed on every run.")
+            technique = pr["technique"] or "repository-specific static analysis (type-checked AST + SSA dominance/def-use + call graph): " + ", ".join(pr["rules"])
+            ref = pr["design_ref"] or "DESIGN.md §3 (rules " + ", ".join(pr["rules"]) + "), §4 " + pid
             checks.append({
                 "property_id": pid,
                 "quick_cmd": f"./check.sh {pid} quick",
